@@ -513,6 +513,7 @@ def run(ctx, chk, tier):
     # every built-in sampler delivers at least one scored positive and negative (the band functions set thresholds at FNR/FPR on each replicate)
     c11.sample_wellformed(ctx, chk)
     c15.support_args_untouched(ctx, chk, "R16.7", with_extra=True)
+    c15.curve_owns_arrays(ctx, chk, "R16.10", ("score_analysis.roc_curve.roc_with_ci",))
     for q in BANDS:
         fn = ctx.db.function(q)
         k, finds = lint(fn.node)
